@@ -1,3 +1,184 @@
+"""Sensitivity self-test: realistic single-site mutants of pycoin, applied to a scratch copy under
+/dev/shm (never /repo, never /tmp), each checked with the *quick* command of the property it
+should break.  A mutant is killed iff that check exits 1 with a VIOLATION line.
+
+Also runs the independently written seeded changes under /verif/seeded/*/patch.diff with --seeded.
+"""
+import json
+import os
+import shutil
+import subprocess
+import sys
+import time
+import concurrent.futures as cf
+
+ROOT = os.path.dirname(os.path.dirname(os.path.dirname(os.path.abspath(__file__))))
+
+# (id, property, file, old, new[, count])
+M = [
+    ("C01-nonce-ignores-hash", "C01", "pycoin/ecdsa/rfc6979.py", 'h1 = val.to_bytes(order_size, "big")', 'h1 = (0).to_bytes(order_size, "big")'),
+    ("C01-verify-accepts-s-ge-n", "C01", "pycoin/ecdsa/Generator.py", "if r < 1 or r >= order or s < 1 or s >= order:", "if r < 1 or r >= order or s < 1:"),
+    ("C01-verify-infinity-unfixed", "C01", "pycoin/ecdsa/Generator.py", "        if point == self._infinity:\n            return False\n", ""),
+    ("C01-recid-unaffected-sign-k-off-by-one", "C01", "pycoin/ecdsa/Generator.py", "k = gen_k(n, secret_exponent, val)  # type: ignore[arg-type]", "k = gen_k(n, secret_exponent, val) + 1  # type: ignore[arg-type]"),
+    ("C02-openssl-forgets-mod-order", "C02", "pycoin/ecdsa/native/openssl.py", "                e %= self._order  # type: ignore[attr-defined]", "                pass"),
+    ("C02-ladder-wrong-branch", "C02", "pycoin/ecdsa/Curve.py", "result = v[0 if (e & i) else 1]", "result = v[1 if (e & i) else 0]"),
+    ("C02-blinding-not-removed", "C02", "pycoin/ecdsa/Generator.py", "return self.raw_mul(e + self._blinding_factor) + self._minus_blinding_factor_g", "return self.raw_mul(e + self._blinding_factor)"),
+    ("C02-points-for-x-odd-first", "C02", "pycoin/ecdsa/Generator.py", "if y0 & 1 == 0:", "if y0 & 1 == 1:"),
+    ("C02-add-inverse-not-infinity", "C02", "pycoin/ecdsa/Curve.py", "if (y0 + y1) % p == 0:", "if (y0 + y1) % p == 0 and x0 == 0:"),
+    ("C04-mask-0x03", "C04", "pycoin/coins/bitcoin/SolutionChecker.py", "if (hash_type & 0x1F) == SIGHASH_NONE:", "if (hash_type & 0x03) == SIGHASH_NONE:"),
+    ("C04-anyonecanpay-keeps-inputs", "C04", "pycoin/coins/bitcoin/SolutionChecker.py", "        if hash_type & SIGHASH_ANYONECANPAY:\n            txs_in = [txs_in[unsigned_txs_out_idx]]", "        if False:\n            txs_in = [txs_in[unsigned_txs_out_idx]]"),
+    ("C04-bip143-single-commits-output-0", "C04", "pycoin/coins/bitcoin/SegwitChecker.py", "txs_out = txs_out[tx_in_idx : tx_in_idx + 1]", "txs_out = txs_out[0:1]"),
+    ("C04-forkid-check-dropped", "C04", "pycoin/coins/bcash/SolutionChecker.py", "if hash_type & SIGHASH_FORKID != SIGHASH_FORKID:", "if False:"),
+    ("C04-hash-sequence-ignores-none", "C04", "pycoin/coins/bitcoin/SegwitChecker.py", "            or ((hash_type & 0x1F) == SIGHASH_NONE)\n", ""),
+    ("C04-sighash-blanks-real-sequences", "C04", "pycoin/coins/bitcoin/SolutionChecker.py", "        return self.tx.TxIn(\n            tx_in.previous_hash, tx_in.previous_index, b\"\", tx_in.sequence\n        )", "        tx_in.script = b\"\" if False else tx_in.script\n        self.tx.lock_time = self.tx.lock_time\n        tx_in.sequence = tx_in.sequence if idx == unsigned_txs_out_idx else tx_in.sequence\n        return tx_in if False else self.tx.TxIn(\n            tx_in.previous_hash, tx_in.previous_index, b\"\", tx_in.sequence & 0xFFFFFFFE\n        )"),
+    ("C05-low-s-removed", "C05", "pycoin/solve/some_solvers.py", "            if s + s > order:\n                s = order - s", "            if False:\n                s = order - s"),
+    ("C05-hash-type-byte-always-all", "C05", "pycoin/solve/some_solvers.py", "binary_signature = der.sigencode_der(r, s) + bytes([signature_type])", "binary_signature = der.sigencode_der(r, s) + bytes([signature_type & 0x7F])"),
+    ("C05-stops-one-signature-early", "C05", "pycoin/solve/some_solvers.py", "if len(existing_signatures) >= len(signature_variables):", "if len(existing_signatures) >= len(signature_variables) - 1 and len(signature_variables) > 1:"),
+    ("C05-atom-sort-unfixed", "C05", "pycoin/coins/bitcoin/Solver.py", "return int(k.name[2:])", "return k.name  # type: ignore[return-value]"),
+    ("C05-multisig-order-reversed", "C05", "pycoin/solve/some_solvers.py", "existing_signatures.sort()", "existing_signatures.sort(reverse=True)"),
+    ("C05-signs-unasked-inputs", "C05", "pycoin/coins/bitcoin/Solver.py", "for tx_in_idx in sorted(tx_in_idx_set):", "for tx_in_idx in range(len(self.tx.txs_in)):"),
+    ("C06-missing-unspent-not-checked", "C06", "pycoin/coins/Tx.py", "        if len(self.unspents) <= tx_in_idx or self.unspents[tx_in_idx] is None:\n            return False", "        if False:\n            return False"),
+    ("C06-witness-amount-not-committed", "C06", "pycoin/coins/bitcoin/SegwitChecker.py", 'stream_struct("Q", f, tx_out.coin_value)', 'stream_struct("Q", f, 0)'),
+    ("C06-hash-prevouts-memoised-on-class", "C06", "pycoin/coins/bitcoin/SegwitChecker.py", "            stream_struct(\"L\", f, tx_in.previous_index)\n        return double_sha256(f.getvalue())", "            stream_struct(\"L\", f, tx_in.previous_index)\n        if getattr(SegwitChecker, \"_hp\", None) is None:\n            SegwitChecker._hp = double_sha256(f.getvalue())  # type: ignore[attr-defined]\n        return SegwitChecker._hp  # type: ignore[attr-defined,no-any-return]"),
+    ("C06-locktime-not-committed-legacy", "C06", "pycoin/coins/bitcoin/SolutionChecker.py", "tmp_tx = self.tx.__class__(self.tx.version, txs_in, txs_out, self.tx.lock_time)", "tmp_tx = self.tx.__class__(self.tx.version, txs_in, txs_out, 0)"),
+    ("C07-compact-size-65535", "C07", "pycoin/satoshi/satoshi_int.py", "elif v <= 65535:", "elif v < 65535:"),
+    ("C07-txid-includes-witness", "C07", "pycoin/coins/bitcoin/Tx.py", "        self.stream(s, include_witness_data=False)\n        if hash_type is not None:", "        self.stream(s)\n        if hash_type is not None:"),
+    ("C07-spendable-binary-unfixed", "C07", "pycoin/coins/bitcoin/Spendable.py", "                self.tx_hash,\n                self.tx_out_index,\n                self.block_index_available,\n                bool(", "                self.tx_out_index,\n                self.tx_hash,\n                self.block_index_available,\n                bool("),
+    ("C07-unspents-extension-drops-last", "C07", "pycoin/coins/bitcoin/Tx.py", "        for tx_out in self.unspents:\n            if tx_out is None:", "        for tx_out in self.unspents[: max(1, len(self.unspents) - (len(self.unspents) > 2))]:\n            if tx_out is None:"),
+    ("C09-child-index-little-endian", "C09", "pycoin/key/bip32.py", 'i_as_bytes = struct.pack(">L", i)', 'i_as_bytes = struct.pack("<L", i)'),
+    ("C09-depth-not-incremented", "C09", "pycoin/key/BIP32Node.py", "depth=self._depth + 1, parent_fingerprint", "depth=self._depth, parent_fingerprint"),
+    ("C09-cache-key-without-as-private", "C09", "pycoin/key/BIP32Node.py", "lookup = (i, is_hardened, as_private)", "lookup = (i, is_hardened)"),
+    ("C09-hardened-from-public-wrong-refusal", "C09", "pycoin/key/BIP32Node.py", "            if is_hardened:\n                raise PublicPrivateMismatchError(", "            if False:\n                raise PublicPrivateMismatchError("),
+    ("C09-keychain-compressed-flag-inverted", "C09", "pycoin/key/Keychain.py", "                is_compressed,\n                key._generator,", "                not is_compressed,\n                key._generator,"),
+    ("C13-remainder-to-later-outputs", "C13", "pycoin/coins/tx_utils.py", "    for _ in range(extra_count):\n        yield value_each + 1\n    for _ in range(split_count - extra_count):\n        yield value_each", "    for _ in range(split_count - extra_count):\n        yield value_each\n    for _ in range(extra_count):\n        yield value_each + 1"),
+    ("C13-insufficient-boundary", "C13", "pycoin/coins/tx_utils.py", "if remaining_coins < zero_count:", "if remaining_coins <= zero_count:"),
+    ("C13-validate-ignores-script", "C13", "pycoin/coins/bitcoin/Tx.py", "if tx_out1.script != tx_out2.script:", "if False:"),
+    ("C13-validate-amount-greater-only", "C13", "pycoin/coins/bitcoin/Tx.py", "if tx_out1.coin_value != tx_out2.coin_value:", "if tx_out1.coin_value < tx_out2.coin_value:"),
+    ("C13-fee-ignored-in-allocation", "C13", "pycoin/coins/tx_utils.py", "coins_allocated = sum(tx_out.coin_value for tx_out in tx.txs_out) + fee", "coins_allocated = sum(tx_out.coin_value for tx_out in tx.txs_out)"),
+    ("C14-odd-level-duplicates-first", "C14", "pycoin/merkle.py", "hashes.append(hashes[-1])", "hashes.append(hashes[0])"),
+    ("C14-extra-hashes-check-removed", "C14", "pycoin/message/make_parser_and_packer.py", "    if len(hashes) > 0:\n        raise ValueError(\"extra hashes", "    if False:\n        raise ValueError(\"extra hashes"),
+    ("C14-padding-check-removed", "C14", "pycoin/message/make_parser_and_packer.py", "if flags[idx] > (1 << (r + 1)) - 1:", "if False:"),
+    ("C14-block-hash-cached-forever", "C14", "pycoin/block.py", '        if not hasattr(self, "__hash"):\n            self.__hash = self._calculate_hash()', '        if not hasattr(self, "_Block__hash"):\n            self.__hash = self._calculate_hash()'),
+    ("C14-merkle-check-disabled", "C14", "pycoin/block.py", "if calculated_hash != self.merkle_root:", "if calculated_hash != self.merkle_root and len(self.txs) == 1:"),
+    ("C15-longest-not-heaviest", "C15", "pycoin/blockchain/BlockChain.py", "weight = sum(self.weight_lookup.get(h, 0) for h in chain)", "weight = len(chain)"),
+    ("C15-index-not-removed", "C15", "pycoin/blockchain/BlockChain.py", "            del self.hash_to_index_lookup[h]", "            pass"),
+    ("C15-lock-cache-unfixed", "C15", "pycoin/blockchain/BlockChain.py", "self._longest_chain_cache = longest_chain[:-index]", "self._longest_chain_cache = None"),
+    ("C15-locked-duplicate-unfixed", "C15", "pycoin/blockchain/BlockChain.py", "                    # a duplicate of a locked header: already part of the chain for good\n                    continue", "                    pass"),
+    ("C15-adopts-only-at-bottom", "C15", "pycoin/blockchain/ChainFinder.py", "for i, node in enumerate(path[:-1]):", "for i, node in enumerate(path[:1]):"),
+    ("C19-native-not-probed", "C19", "pycoin/encoding/hash.py", '            ripemd160_native(b"").digest()\n', "            pass\n"),
+    ("C19-pure-ripemd-padding-at-55", "C19", "pycoin/contrib/ripemd160.py", "((119 - len(data)) & 63)", "((119 - len(data)) & 63 or 64)"),
+    ("C19-murmur-tail-swapped", "C19", "pycoin/bloomfilter.py", "k1 = (data[roundedEnd + 2] & 0xFF) << 16", "k1 = (data[roundedEnd + 2] & 0xFF) << 8"),
+    ("C19-bloom-seed-xor-tweak", "C19", "pycoin/bloomfilter.py", "seed = hash_index * 0xFBA4C795 + self.tweak", "seed = hash_index * 0xFBA4C795 ^ self.tweak"),
+    ("C19-murmur-seed-not-reduced-at-end", "C19", "pycoin/bloomfilter.py", "    h1 ^= length\n", "    h1 ^= length + (seed >> 32)\n"),
+]
+
+
+def _scratch_base():
+    for d in ("/dev/shm", os.environ.get("XDG_RUNTIME_DIR") or ""):
+        if d and os.path.isdir(d) and os.access(d, os.W_OK):
+            return d
+    raise RuntimeError("no scratch location outside /repo, /verif and /tmp")
+
+
+def _make_copy(tag):
+    base = os.path.join(_scratch_base(), "verif-mut-%d-%s" % (os.getpid(), tag))
+    if os.path.exists(base):
+        shutil.rmtree(base)
+    os.makedirs(base)
+    repo = os.environ.get("VERIF_REPO_SRC", "/repo")
+    shutil.copytree(os.path.join(repo, "pycoin"), os.path.join(base, "pycoin"))
+    data = os.path.join(repo, "tests", "btc", "data")
+    if os.path.isdir(data):
+        shutil.copytree(data, os.path.join(base, "tests", "btc", "data"))
+    return base
+
+
+def _run_check(base, prop, budget, workers, tier):
+    env = dict(os.environ)
+    env["VERIF_REPO"] = base
+    env["VERIF_OUT_DIR"] = os.path.join(base, "_out")
+    os.makedirs(env["VERIF_OUT_DIR"], exist_ok=True)
+    cmd = [os.path.join(ROOT, "vcheck"), "check", prop, "--tier", tier, "--workers", str(workers), "--det-runs", "2"]
+    if budget:
+        cmd += ["--budget", str(budget)]
+    t0 = time.time()
+    p = subprocess.run(cmd, env=env, capture_output=True, text=True, timeout=3600)
+    viol = [l for l in p.stdout.splitlines() if l.startswith("VIOLATION")]
+    cls = [l.strip() for l in p.stdout.splitlines() if l.strip().startswith("class=")]
+    return p.returncode, viol, cls, time.time() - t0, p.stdout[-1500:]
+
+
+def _one(entry, budget, workers, tier):
+    mid, prop, path, old, new = entry[:5]
+    base = _make_copy(mid)
+    try:
+        fp = os.path.join(base, path)
+        src = open(fp).read()
+        if old not in src:
+            return {"id": mid, "property": prop, "status": "NOT-APPLICABLE (source text not found)"}
+        open(fp, "w").write(src.replace(old, new, 1))
+        rc, viol, cls, wall, tail = _run_check(base, prop, budget, workers, tier)
+        status = "killed" if rc == 1 and viol else ("harness-error" if rc == 2 else "SURVIVED")
+        return {"id": mid, "property": prop, "status": status, "rc": rc, "wall_s": round(wall, 1),
+                "class": sorted({c.split()[0] for c in cls})[:4], "tail": tail if status != "killed" else ""}
+    finally:
+        shutil.rmtree(base, ignore_errors=True)
+
+
+def _seeded(budget, workers, tier):
+    out = []
+    sd = os.path.join(ROOT, "seeded")
+    if not os.path.isdir(sd):
+        return out
+    for name in sorted(os.listdir(sd)):
+        d = os.path.join(sd, name)
+        patch = os.path.join(d, "patch.diff")
+        meta = os.path.join(d, "meta.json")
+        if not os.path.exists(patch) or not os.path.exists(meta):
+            continue
+        prop = json.load(open(meta))["property"]
+        base = _make_copy("seeded-" + name)
+        try:
+            p = subprocess.run(["patch", "-p1", "-d", base, "-i", patch], capture_output=True, text=True)
+            if p.returncode != 0:
+                out.append({"id": "seeded/" + name, "property": prop, "status": "PATCH-FAILED", "tail": p.stdout[-400:] + p.stderr[-400:]})
+                continue
+            rc, viol, cls, wall, tail = _run_check(base, prop, budget, workers, tier)
+            status = "killed" if rc == 1 and viol else ("harness-error" if rc == 2 else "SURVIVED")
+            out.append({"id": "seeded/" + name, "property": prop, "status": status, "rc": rc, "wall_s": round(wall, 1),
+                        "class": sorted({c.split()[0] for c in cls})[:4], "tail": tail if status != "killed" else ""})
+        finally:
+            shutil.rmtree(base, ignore_errors=True)
+    return out
+
+
 def main(a):
-    print("not built yet")
-    return 2
+    only = a.only.split(",") if a.only else None
+    entries = [e for e in M if not only or e[0] in only or e[1] in only]
+    par = 4
+    workers = 4
+    results = []
+    t0 = time.time()
+    with cf.ThreadPoolExecutor(max_workers=par) as ex:
+        futs = [ex.submit(_one, e, a.budget, workers, a.tier) for e in entries]
+        for f in futs:
+            r = f.result()
+            results.append(r)
+            print("%-48s %-4s %-14s %6ss %s" % (r["id"], r["property"], r["status"], r.get("wall_s", "-"), ",".join(r.get("class", []))), flush=True)
+            if r["status"] not in ("killed",) and r.get("tail"):
+                print("    " + r["tail"].replace("\n", "\n    ")[-600:])
+    if a.seeded or (only and any(o.startswith("seeded") for o in only)):
+        for r in _seeded(a.budget, 16, a.tier):
+            results.append(r)
+            print("%-48s %-4s %-14s %6ss %s" % (r["id"], r["property"], r["status"], r.get("wall_s", "-"), ",".join(r.get("class", []))), flush=True)
+    by = {}
+    for r in results:
+        by.setdefault(r["property"], []).append(r["status"] == "killed")
+    print("kill table: " + ", ".join("%s %d/%d" % (p, sum(v), len(v)) for p, v in sorted(by.items())))
+    out = os.path.join(ROOT, "selftest_mutants.json")
+    json.dump({"wall_s": round(time.time() - t0, 1), "tier": a.tier, "budget": a.budget, "results": results}, open(out, "w"), indent=1)
+    weak = [p for p, v in by.items() if sum(v) < 2 and len(v) >= 2]
+    if weak:
+        print("SELFTEST-FAIL fewer than two mutants killed for: %s" % ", ".join(sorted(weak)))
+        return 1
+    return 0
